@@ -20,6 +20,7 @@
 -/
 import Lattigo.Proofs.LinTransAt
 import Lattigo.Proofs.LinTransLazy
+import Lattigo.Props.C12Gen
 
 namespace Lattigo.Props.C12
 open Lattigo.Model.LinTrans
